@@ -425,37 +425,39 @@ Definition subst_stmt (s : stmt) : stmt :=
      s_star := sw_star (s_star s);
      s_limit_by := map subst_wt (s_limit_by s) |}.
 
-Definition rep_stmt (s : stmt) : res stmt :=
+Definition rep_withs (s : stmt) : res (list (string * subq)) :=
+  if vis (skind s) S__with
+  then match s_with s with
+       | [] => Ok []
+       | w => if with_items_replaceable then Ok (map (fun p => (fst p, rep_q (snd p))) w) else Err "TypeError"
+       end
+  else Ok (s_with s).
+Definition rep_joins (s : stmt) : res (list join) :=
+  if vis (skind s) S__joins then mapM rep_join (s_joins s) else Ok (s_joins s).
+Definition rep_stmt_core (s : stmt) (withs : list (string * subq)) (joins : list join) : stmt :=
   let k := skind s in
-  match (if vis k S__with
-         then match s_with s with
-              | [] => Ok []
-              | w => if with_items_replaceable then Ok (map (fun p => (fst p, rep_q (snd p))) w) else Err "TypeError"
-              end
-         else Ok (s_with s)) with
+  {| s_clickhouse := s_clickhouse s;
+     s_from := ifv (vis k S__from) (map cmp_src) (s_from s);
+     s_insert := ifv (vis k S__insert_table) subst_otbl (s_insert s);
+     s_update := ifv (vis k S__update_table) subst_otbl (s_update s);
+     s_with := withs;
+     s_selects := ifv (vis k S__selects) (map rep_wt) (s_selects s);
+     s_columns := ifv (vis k S__columns) (map rep) (s_columns s);
+     s_values := ifv (vis k S__values) (map (map rep_wt)) (s_values s);
+     s_wheres := ifv (vis k S__wheres) rep_ow (s_wheres s);
+     s_prewheres := ifv (vis k S__prewheres) rep_ow (s_prewheres s);
+     s_groupbys := ifv (vis k S__groupbys) (map rep_wt) (s_groupbys s);
+     s_havings := ifv (vis k S__havings) rep_ow (s_havings s);
+     s_orderbys := ifv (vis k S__orderbys) (map (fun p => (rep_wt (fst p), snd p))) (s_orderbys s);
+     s_joins := joins;
+     s_updates := ifv (vis k S__updates) (map (fun p => (rep (fst p), rep_wt (snd p)))) (s_updates s);
+     s_star := ifv (vis k S__select_star_tables) sw_star (s_star s);
+     s_limit_by := ifv (vis k S__limit_by) (map rep_wt) (s_limit_by s) |}.
+(* QueryBuilder.replace_table: _with first, _joins later; either may raise *)
+Definition rep_stmt (s : stmt) : res stmt :=
+  match rep_withs s with
   | Err e => Err e
-  | Ok withs =>
-    match (if vis k S__joins then mapM rep_join (s_joins s) else Ok (s_joins s)) with
-    | Err e => Err e
-    | Ok joins =>
-      Ok {| s_clickhouse := s_clickhouse s;
-            s_from := ifv (vis k S__from) (map cmp_src) (s_from s);
-            s_insert := ifv (vis k S__insert_table) subst_otbl (s_insert s);
-            s_update := ifv (vis k S__update_table) subst_otbl (s_update s);
-            s_with := withs;
-            s_selects := ifv (vis k S__selects) (map rep_wt) (s_selects s);
-            s_columns := ifv (vis k S__columns) (map rep) (s_columns s);
-            s_values := ifv (vis k S__values) (map (map rep_wt)) (s_values s);
-            s_wheres := ifv (vis k S__wheres) rep_ow (s_wheres s);
-            s_prewheres := ifv (vis k S__prewheres) rep_ow (s_prewheres s);
-            s_groupbys := ifv (vis k S__groupbys) (map rep_wt) (s_groupbys s);
-            s_havings := ifv (vis k S__havings) rep_ow (s_havings s);
-            s_orderbys := ifv (vis k S__orderbys) (map (fun p => (rep_wt (fst p), snd p))) (s_orderbys s);
-            s_joins := joins;
-            s_updates := ifv (vis k S__updates) (map (fun p => (rep (fst p), rep_wt (snd p)))) (s_updates s);
-            s_star := ifv (vis k S__select_star_tables) sw_star (s_star s);
-            s_limit_by := ifv (vis k S__limit_by) (map rep_wt) (s_limit_by s) |}
-    end
+  | Ok withs => match rep_joins s with Err e => Err e | Ok joins => Ok (rep_stmt_core s withs joins) end
   end.
 
 Definition cov_stmt (s : stmt) : bool :=
